@@ -18,7 +18,7 @@ pub fn spec(tier: Tier) -> RunSpec {
 section inproc: K named threads call the real Server::process on mock transports at the same instant (barrier) in one process - same working directory, same environment, maximal overlap. \
 section network: the real binary with N in {1,2,4,8,16} workers; arrival shapes: all at once (every request fully sent into the backlog of a SIGSTOPped server, then SIGCONT), client threads released by a barrier, staggered bursts. \
 Oracle (differential): each concurrent response equals the serial response to the same request byte for byte after masking the Date-Unix-Epoch-Nanos value and sorting the lines of the form-echo bodies (their order is unspecified hash-map order). \
-Non-trivial = at least two requests with different expected responses in flight together (by construction behind the barrier / in the backlog; measured by overlapping [start,end] intervals for staggered arrivals); distinct by (multiset, shape, N).",
+Section queued-for-a-long-while: a request waits 11 s (thorough: up to 61 s) in the queue of a 1-worker server behind a silent peer and must then get the response it gets alone. Network cases may hold 1..3 silent peers (fewer than N) during the concurrent phase. Non-trivial = at least two requests with different expected responses in flight together (by construction behind the barrier / in the backlog; measured by overlapping [start,end] intervals for staggered arrivals); distinct by (multiset, shape, N).",
         &["real-thread schedules are sampled, not enumerated: a race that needs a window of a few instructions may survive", "serial responses are taken from the same server instance before the concurrent phase"],
         if tier == Tier::Quick { 900 } else { 14400 },
     );
@@ -223,6 +223,25 @@ pub fn eval_net(ctx: &Ctx, docroot: &std::path::Path, c: &NetCase) -> Verdict {
     ctx.judge(problems, overlapping && distinct.len() >= 2, classes)
 }
 
+/// Ok(None): the queued request got the response it gets alone. Ok(Some(detail)): it got something else. Err: the probe could not be carried out.
+pub fn long_queued_probe(docroot: &std::path::Path, wait_s: u64) -> Result<Option<String>, String> {
+    let srv = Server::start(&ServerOpts::new(docroot, 1)).map_err(|e| format!("server start: {}", e))?;
+    let req = b"GET /a.txt HTTP/1.1\r\nHost: localhost\r\n\r\n";
+    let alone = srv.roundtrip(req, Duration::from_secs(10));
+    if alone.outcome == Outcome::TimedOut { return Err("reference request timed out".to_string()); }
+    let alone = normalise(&alone.bytes);
+    let silent = srv.connect().map_err(|e| format!("connect: {}", e))?;
+    std::thread::sleep(Duration::from_millis(30));
+    let mut victim = srv.connect().map_err(|e| format!("connect: {}", e))?;
+    victim.write_all(req).map_err(|e| e.to_string())?;
+    std::thread::sleep(Duration::from_secs(wait_s));
+    drop(silent);
+    let ex = net::read_all(&mut victim, Duration::from_secs(10));
+    if ex.outcome == Outcome::TimedOut && ex.bytes.is_empty() { return Err("the queued request was not answered within 10 s after the silent peer had gone".to_string()); }
+    let got = normalise(&ex.bytes);
+    Ok(if got == alone { None } else { Some(format!("{} bytes ({:?}) where the lone request gets {} bytes; begins {}", got.len(), ex.outcome, alone.len(), crate::fw::util::lossy(&got, 60))) })
+}
+
 pub fn run(ctx: &Ctx) {
     crate::fw::inproc::init_env();
     let tree = match fixed_docroot() { Ok(t) => t, Err(e) => { ctx.inconclusive(&format!("docroot: {}", e)); return; } };
@@ -231,7 +250,20 @@ pub fn run(ctx: &Ctx) {
     ctx.prop("inproc", ctx.share(ctx.scale(2400, 60_000)), (reqs.clone(), proptest::bool::weighted(0.2)).prop_map(|(requests, fresh)| InprocCase { requests, fresh }), |c| eval_inproc(ctx, c));
     let root = tree.root.clone();
     let nc = (prop::sample::select(vec![1u8, 2, 4, 8, 16]), 0u8..3, reqs, proptest::bool::weighted(0.3), any::<bool>(), prop_oneof![3 => Just(0u8), 2 => 1u8..4]).prop_map(|(workers, shape, requests, fresh, layered, silent)| NetCase { workers, shape, requests, fresh, layered, silent });
+    // a request that waits in the queue for a long while (every worker is held by a silent peer) gets, once a worker is free, the response it would get alone:
+    // one probe per native worker beside the other cases (quick: 11 s on worker 0; thorough: 11 / 21 / 41 / 61 s on workers 0..3)
+    let wait_s: Option<u64> = if ctx.tier == Tier::Thorough { [11u64, 21, 41, 61].get(ctx.worker as usize).copied() } else if ctx.worker == 0 { Some(11) } else { None };
+    let probe = wait_s.map(|w| { let root = root.clone(); std::thread::spawn(move || (w, long_queued_probe(&root, w))) });
     ctx.prop("network", ctx.share(ctx.scale(320, 12_000)), nc, |c| eval_net(ctx, &root, c));
+    if let Some(h) = probe {
+        ctx.set_section("queued-for-a-long-while");
+        match h.join() {
+            Ok((w, Ok(None))) => { let v = Verdict::passc(true, vec!["request-queued-behind-silent-peers-for-many-seconds"]); ctx.count(&v, crate::fw::hash64(&("long-queued", w)), || serde_json::json!({"queued_s": w})); }
+            Ok((w, Ok(Some(detail)))) => { let v = ctx.judge(vec![("response-differs-after-waiting-in-the-queue".to_string(), format!("a request that waited {} s in the queue of a 1-worker server behind a silent peer: {}", w, detail))], true, vec!["request-queued-behind-silent-peers-for-many-seconds"]); ctx.count(&v, crate::fw::hash64(&("long-queued", w)), || serde_json::json!({"queued_s": w})); }
+            Ok((_, Err(e))) => ctx.inconclusive(&format!("long-queued probe: {}", e)),
+            Err(_) => ctx.inconclusive("long-queued probe thread panicked"),
+        }
+    }
     let _ = std::env::set_current_dir("/");
     drop(tree);
 }
